@@ -215,26 +215,18 @@ DEF_PARSE_SPEC(w, i64, u64, vf_i128, vf_u128)
 /* =========================================== formatting, 8 bit (quick) ================================================== */
 /*@GROUP name=to_chars_i8 props=C10,C02 kind=K unwind=12 solver=kissat@*/
 void h_to_chars_i8(void) { SYM_BASE(); FMT_PRE(i8, 8, 8, 10);
-  VF_KNOWN(C10_format_store_before_length_check, v != 0 && (L == 0 || (L == 1 && v < 0 && base == 10)));
-  VF_KNOWN(C10_to_chars_exact_fit_rejected, v != 0 && L == n);
-  VF_KNOWN(C10_format_sign_only_base10, v < 0 && base != 10);
   TO_CHARS_POST(i8, 8, 8); }
 
 /*@GROUP name=to_chars_u8 props=C10,C02 kind=K unwind=12 solver=kissat@*/
 void h_to_chars_u8(void) { SYM_BASE(); FMT_PRE(u8, 8, 8, 10);
-  VF_KNOWN(C10_format_store_before_length_check, v != 0 && L == 0);
-  VF_KNOWN(C10_to_chars_exact_fit_rejected, v != 0 && L == n);
   TO_CHARS_POST(u8, 8, 8); }
 
 /*@GROUP name=from_integer_i8 props=C10,C02 kind=K unwind=12 solver=kissat@*/
 void h_from_integer_i8(void) { SYM_BASE(); FMT_PRE(i8, 8, 8, 10);
-  VF_KNOWN(C10_format_store_before_length_check, v != 0 && (L == 0 || (L == 1 && v < 0 && base == 10)));
-  VF_KNOWN(C10_format_sign_only_base10, v < 0 && base != 10);
   FROM_INTEGER_POST(i8, 8, 8); }
 
 /*@GROUP name=from_integer_u8 props=C10,C02 kind=K unwind=12 solver=kissat@*/
 void h_from_integer_u8(void) { SYM_BASE(); FMT_PRE(u8, 8, 8, 10);
-  VF_KNOWN(C10_format_store_before_length_check, v != 0 && L == 0);
   FROM_INTEGER_POST(u8, 8, 8); }
 
 /* =========================================== parsing, 8 bit (quick) ===================================================== */
@@ -273,7 +265,6 @@ void h_to_integer_u8(void) { SYM_BASE(); RANGE_IN(11); TO_INTEGER_PRE(u8, 8, 11)
 
 /*@GROUP name=roundtrip_i8 props=C10,C02 kind=K unwind=13 solver=kissat@*/
 void h_roundtrip_i8(void) { SYM_BASE(); ROUNDTRIP_PRE(i8, 8);
-  VF_KNOWN(C10_format_sign_only_base10, v < 0 && base != 10);
   ROUNDTRIP_POST(i8, 8); }
 
 /*@GROUP name=roundtrip_u8 props=C10,C02 kind=K unwind=13 solver=kissat@*/
@@ -297,26 +288,18 @@ void h_viol_to_string(void) { const int base = 10; VF_INPUT_BOOL(uns); unsigned 
  * together are the complete (type, every base) proof. */
 /*@GROUP name=to_chars_i16 props=C10,C02 kind=K unwind=20 tier=thorough timeout=1200 cost=8 solver=kissat@*/
 void h_to_chars_i16(void) { SYM_BASE(); FMT_PRE(i16, 16, 16, 18);
-  VF_KNOWN(C10_format_store_before_length_check, v != 0 && (L == 0 || (L == 1 && v < 0 && base == 10)));
-  VF_KNOWN(C10_to_chars_exact_fit_rejected, v != 0 && L == n);
-  VF_KNOWN(C10_format_sign_only_base10, v < 0 && base != 10);
   TO_CHARS_POST(i16, 16, 16); }
 
 /*@GROUP name=to_chars_u16 props=C10,C02 kind=K unwind=20 tier=thorough timeout=1200 cost=8 solver=kissat@*/
 void h_to_chars_u16(void) { SYM_BASE(); FMT_PRE(u16, 16, 16, 18);
-  VF_KNOWN(C10_format_store_before_length_check, v != 0 && L == 0);
-  VF_KNOWN(C10_to_chars_exact_fit_rejected, v != 0 && L == n);
   TO_CHARS_POST(u16, 16, 16); }
 
 /*@GROUP name=from_integer_i16 props=C10,C02 kind=K unwind=20 tier=thorough timeout=1200 cost=8 solver=kissat@*/
 void h_from_integer_i16(void) { SYM_BASE(); FMT_PRE(i16, 16, 16, 18);
-  VF_KNOWN(C10_format_store_before_length_check, v != 0 && (L == 0 || (L == 1 && v < 0 && base == 10)));
-  VF_KNOWN(C10_format_sign_only_base10, v < 0 && base != 10);
   FROM_INTEGER_POST(i16, 16, 16); }
 
 /*@GROUP name=from_integer_u16 props=C10,C02 kind=K unwind=20 tier=thorough timeout=1200 cost=8 solver=kissat@*/
 void h_from_integer_u16(void) { SYM_BASE(); FMT_PRE(u16, 16, 16, 18);
-  VF_KNOWN(C10_format_store_before_length_check, v != 0 && L == 0);
   FROM_INTEGER_POST(u16, 16, 16); }
 
 /*@GROUP name=from_chars_i16 props=C10,C02 kind=K unwind=22 tier=thorough timeout=600 cost=3 split=CC_B:2:36 solver=kissat@*/
@@ -335,7 +318,6 @@ void h_to_integer_u16(void) { const int base = CC_B; RANGE_IN(CC_D16 + 3); TO_IN
 
 /*@GROUP name=roundtrip_i16 props=C10,C02 kind=K unwind=21 tier=thorough timeout=600 cost=3 split=CC_B:2:36 solver=kissat@*/
 void h_roundtrip_i16(void) { const int base = CC_B; ROUNDTRIP_PRE(i16, 16);
-  VF_KNOWN(C10_format_sign_only_base10, v < 0 && base != 10);
   ROUNDTRIP_POST(i16, 16); }
 
 /*@GROUP name=roundtrip_u16 props=C10,C02 kind=K unwind=21 tier=thorough timeout=600 cost=3 split=CC_B:2:36 solver=kissat@*/
@@ -368,50 +350,41 @@ static int s_numeral_w(vf_u128 x, int base, char *out) { char tmp[66]; int n = 0
 /* ---- formatting ---- */
 /*@GROUP name=to_chars_i32 props=C10,C02 kind=K unwind=17 tier=thorough timeout=1200 split=CC_BI:0:3 cost=6 solver=kissat@*/
 void h_to_chars_i32(void) { const int base = CC_BASE; FMT_PRE(i32, 32, CC_D32, CC_D32 + 3);
-  VF_KNOWN(C10_format_store_before_length_check, v != 0 && (L == 0 || (L == 1 && v < 0 && base == 10)));
-  VF_KNOWN(C10_to_chars_exact_fit_rejected, v != 0 && L == n);
-  VF_KNOWN(C10_format_sign_only_base10, v < 0 && base != 10);
   TO_CHARS_POST(i32, 32, CC_D32); }
 
 /*@GROUP name=to_chars_u32 props=C10,C02 kind=K unwind=17 tier=thorough timeout=1200 split=CC_BI:0:3 cost=6 solver=kissat@*/
 void h_to_chars_u32(void) { const int base = CC_BASE; FMT_PRE(u32, 32, CC_D32, CC_D32 + 3);
-  VF_KNOWN(C10_format_store_before_length_check, v != 0 && L == 0);
-  VF_KNOWN(C10_to_chars_exact_fit_rejected, v != 0 && L == n);
   TO_CHARS_POST(u32, 32, CC_D32); }
 
-/*@GROUP name=to_chars_i32_b2 props=C10,C02 kind=K unwind=38 tier=thorough timeout=1200 cost=6 solver=kissat@*/
-void h_to_chars_i32_b2(void) { const int base = 2; FMT_PRE(i32, 32, 32, 35);
-  VF_KNOWN(C10_format_store_before_length_check, v != 0 && L == 0);
-  VF_KNOWN(C10_to_chars_exact_fit_rejected, v != 0 && L == n);
-  VF_KNOWN(C10_format_sign_only_base10, v < 0);
+/* base 2: with a symbolic buffer length the '-' store makes every later index symbolic on a symbolic-size heap object (array theory
+ * blow-up: out of memory at 10 GB); the length logic of to_chars<int> is proved in the cells above, the 32 binary digits here in a
+ * buffer that always fits */
+/*@GROUP name=to_chars_i32_b2 props=C10,C02 kind=B bound=buffer_of_digits+3 unwind=38 tier=thorough timeout=1200 cost=6 solver=kissat@*/
+void h_to_chars_i32_b2(void) { const int base = 2; CC_OUT(p, 35, 35); const int L = 35; FMT_VAL(i32, 32, 32);
   TO_CHARS_POST(i32, 32, 32); }
 
-/* 64 bit: full domain for the power-of-two bases 8 and 16 (cells 0:1) */
-/*@GROUP name=to_chars_i64 props=C10,C02 kind=K unwind=28 tier=thorough timeout=1200 split=CC_BI:0:1 cost=9 solver=kissat@*/
-void h_to_chars_i64(void) { const int base = CC_BASE; FMT_PRE(i64, 64, CC_D64, CC_D64 + 3);
-  VF_KNOWN(C10_format_store_before_length_check, v != 0 && L == 0);
-  VF_KNOWN(C10_to_chars_exact_fit_rejected, v != 0 && L == n);
-  VF_KNOWN(C10_format_sign_only_base10, v < 0);
+/* 64 bit, power-of-two bases 8 and 16 (cells 0:1).  unsigned: full domain (K).  signed: the same blow-up as above, so (a) every
+ * value >= 0 with every buffer length and (b) every value in a buffer that always fits; both kind=B */
+/*@GROUP name=to_chars_i64_nonneg props=C10,C02 kind=B bound=v>=0 unwind=28 tier=thorough timeout=1200 split=CC_BI:0:1 cost=9 solver=kissat@*/
+void h_to_chars_i64_nonneg(void) { const int base = CC_BASE; FMT_PRE(i64, 64, CC_D64, CC_D64 + 3); __CPROVER_assume(v >= 0);
+  TO_CHARS_POST(i64, 64, CC_D64); }
+
+/*@GROUP name=to_chars_i64_roomy props=C10,C02 kind=B bound=buffer_of_digits+3 unwind=28 tier=thorough timeout=1200 split=CC_BI:0:1 cost=9 solver=kissat@*/
+void h_to_chars_i64_roomy(void) { const int base = CC_BASE; CC_OUT(p, CC_D64 + 3, CC_D64 + 3); const int L = CC_D64 + 3; FMT_VAL(i64, 64, CC_D64);
   TO_CHARS_POST(i64, 64, CC_D64); }
 
 /*@GROUP name=to_chars_u64 props=C10,C02 kind=K unwind=28 tier=thorough timeout=1200 split=CC_BI:0:1 cost=9 solver=kissat@*/
 void h_to_chars_u64(void) { const int base = CC_BASE; FMT_PRE(u64, 64, CC_D64, CC_D64 + 3);
-  VF_KNOWN(C10_format_store_before_length_check, v != 0 && L == 0);
-  VF_KNOWN(C10_to_chars_exact_fit_rejected, v != 0 && L == n);
   TO_CHARS_POST(u64, 64, CC_D64); }
 
 /* 64 bit, bases 10 and 36 (cells 2:3): the full domain does not finish in 20 min -> value window */
-/*@GROUP name=to_chars_i64_win props=C10,C02 kind=B bound=|v|<2^12_or_within_2^12_of_min/max unwind=28 tier=thorough timeout=1200 split=CC_BI:2:3 cost=5 solver=kissat@*/
-void h_to_chars_i64_win(void) { const int base = CC_BASE; FMT_PRE(i64, 64, CC_D64, CC_D64 + 3); WINDOW_VAL_(i64, 4096);
-  VF_KNOWN(C10_format_store_before_length_check, v != 0 && (L == 0 || (L == 1 && v < 0 && base == 10)));
-  VF_KNOWN(C10_to_chars_exact_fit_rejected, v != 0 && L == n);
-  VF_KNOWN(C10_format_sign_only_base10, v < 0 && base != 10);
+/*@GROUP name=to_chars_i64_win props=C10,C02 kind=B bound=|v|<2^16_or_within_2^16_of_min/max;buffer_of_digits+3 unwind=28 tier=thorough timeout=1200 split=CC_BI:2:3 cost=5 solver=kissat@*/
+void h_to_chars_i64_win(void) { const int base = CC_BASE; CC_OUT(p, CC_D64 + 3, CC_D64 + 3); const int L = CC_D64 + 3; FMT_VAL(i64, 64, CC_D64); WINDOW_VAL(i64);
+  /* buffer that always fits: see to_chars_i64_nonneg / to_chars_i64_roomy */
   TO_CHARS_POST(i64, 64, CC_D64); }
 
 /*@GROUP name=to_chars_u64_win props=C10,C02 kind=B bound=v<2^16_or_within_2^16_of_max unwind=28 tier=thorough timeout=1200 split=CC_BI:2:3 cost=5 solver=kissat@*/
 void h_to_chars_u64_win(void) { const int base = CC_BASE; FMT_PRE(u64, 64, CC_D64, CC_D64 + 3); WINDOW_VAL(u64);
-  VF_KNOWN(C10_format_store_before_length_check, v != 0 && L == 0);
-  VF_KNOWN(C10_to_chars_exact_fit_rejected, v != 0 && L == n);
   TO_CHARS_POST(u64, 64, CC_D64); }
 
 /*@GROUP name=to_string_int props=C10,C02,C05 kind=K unwind=14 tier=thorough timeout=1200 cost=6 solver=kissat@*/
